@@ -72,6 +72,8 @@ def scope(tier, seed):
             'EDIT': 'query / edit the same object / query histories on the 82 representatives',
             'NAMES': 'representatives x 4 state-naming schemes x 4 atom renamings (blanks, capitals, constant '
                      'look-alikes) x a third of the state formulas with <=2 nodes',
+            'SHARED': 'structures whose equally labelled states share one label-set object (installed with '
+                      'replace_labelling_function) x quantified formulas with <=2 nodes and special shapes',
             'MED': '40 structures with 5-7 states x quantified formulas with <=2 nodes (half), the 26 special '
                    'shapes, A/E over depth-3 towers',
             'S': 'selected formulas with 4-5 nodes (3 temporal operators per quantifier, nesting 2)'}
@@ -104,6 +106,9 @@ def plan(tier, seed):
         sh.append(['MED', i])
     for lo, hi in chunks(82, 4):
         sh.append(['NAMES', lo, hi])
+    for lo, hi in chunks(82, 4):
+        sh.append(['SHARED', lo, hi])
+    sh.append(['FRESHATOM'])
     return sh
 
 
@@ -248,6 +253,53 @@ def run_shard(shard, tier, seed, acc):
                     acc.violation('structure-modified', kcase(k, f))
                     Kl = lib.to_kripke(k)
         return
+    if kind == 'FRESHATOM':
+        # atoms of the formula that are spelled like the fresh names the checker invents for its
+        # quantified subformulas and label no state: the reference reads them as false everywhere.
+        # Known finding D15: the fresh-name generator only avoids LABELS of K, so such an atom is captured.
+        Pq, Qq = spaces.P, spaces.Q
+        subs = [('E', ('X', Pq)), ('A', ('G', Qq)), ('E', ('U', Pq, Qq)), ('A', ('F', ('G', Pq)))]
+        for k in spaces.kripke_reps(1) + spaces.kripke_reps(2):
+            Kl = lib.to_kripke(k)
+            sem = Sem(k)
+            for sub in subs:
+                name = '[%s]' % str(lib.build(sub, lib.CTLS))
+                for shape in (lambda q, a: ('and', q, a), lambda q, a: ('or', ('not', q), a),
+                              lambda q, a: ('E', ('X', ('and', q, a))), lambda q, a: ('and', a, q)):
+                    f = shape(sub, ('ap', name))
+                    captured = shape(sub, sub)
+                    ref = sem.sat(f)
+                    r = call(lib.CTLS.modelcheck, Kl, lib.build(f, lib.CTLS))
+                    acc.ev(1, 1)
+                    got = frozenset(r[1]) if r[0] == 'ok' and isinstance(r[1], set) else None
+                    case = kcase(k, f, fresh_name=name)
+                    if got == ref:
+                        continue
+                    if got is not None and got == sem.sat(captured):
+                        acc.finding('D15', case, sorted(ref), sorted(got))
+                    else:
+                        acc.violation('wrong-answer', case, sorted(ref), r[1:] if r[0] != 'ok' else sorted(got))
+        return
+    if kind == 'SHARED':
+        # states with equal labels share ONE set object (installed with replace_labelling_function); also
+        # frozensets are not used here because the checker adds fresh atoms to the label sets of its clone
+        forms = [f for s_ in (1, 2) for f in spaces.ctls_state_by_size(s_, spaces.LEAVES2) if has_quant(f)][(seed % 2)::2]
+        forms += special_forms()[::3]
+        ks = [k for k in (spaces.kripke_reps(2) + spaces.kripke_reps(3, ('p',)))
+              if len(set(k.lab)) < k.n][shard[1] * 3:shard[2] * 3]
+        for k in ks:
+            pool = {}
+            Kl = Kripke(S=list(range(k.n)), R=[(i, j) for i in range(k.n) for j in k.succ[i]])
+            Kl.replace_labelling_function(dict((i, pool.setdefault(k.lab[i], set(k.lab[i]))) for i in range(k.n)))
+            snap = lib.snapshot_kripke(Kl)
+            for j, f in enumerate(forms):
+                if j % 32 == 0 and deadline_passed():
+                    acc.capped()
+                    return
+                check_one(k, Kl, f, acc)
+            if lib.snapshot_kripke(Kl) != snap:
+                acc.violation('structure-modified', kcase(k))
+        return
     if kind == 'NAMES':
         forms = [f for s_ in (0, 1, 2) for f in spaces.ctls_state_by_size(s_, spaces.LEAVES2)][(seed % 3)::3]
         for k in (spaces.kripke_reps(1) + spaces.kripke_reps(2))[shard[1]:shard[2]] + spaces.kripke_reps(3)[shard[1] * 11::450]:
@@ -355,6 +407,12 @@ def replay(art):
                 call(lib.CTLS.modelcheck, Kl, lib.build(f, lib.CTLS))
         return {'violates': lib.snapshot_kripke(Kl) != snap}
     f = spaces.from_jsonable(case['f'])
+    if case.get('fresh_name'):
+        from ..runner import Acc
+        acc = Acc()
+        run_shard(['FRESHATOM'], 'quick', 0, acc)
+        fid = 'D15' if acc.d['findings'] else None
+        return {'violates': acc.d['nviol'] > 0 or fid is not None, 'finding': None if acc.d['nviol'] else fid}
     if case.get('atom_map') is not None:
         sem = Sem(k)
         for Kl2, names, m, scheme in named_instances(k):
